@@ -242,7 +242,12 @@ def _run_patch_variant(args):
 
 
 # seeded changes that are (honestly) not decided by the check of their target property: reason
-UNDECIDED_SEEDS = {'C01_d': 'wrong multiplication count in a while loop: E2 does not model while loops (exit 2), the count is invisible to the grading'}
+UNDECIDED_SEEDS = {'C01_d': 'wrong multiplication count in a while loop: E2 does not model while loops (exit 2), the count is invisible to the grading',
+                   'C01_f': 'value-level change inside an unmodelled construct: the check stops with ANALYSIS-ERROR (exit 2), no violation is named',
+                   'C07_g': 'fast path of UTPM.lu2 chosen from the zeroth coefficient only (legitimate control dependence) that returns homogeneous but numerically '
+                            'wrong factors: the defining equation L U = P A is numeric content',
+                   'C12_h': 'UTPM.shift rewritten with an index array whose mask admits negative (wrapping) indices: value-level index arithmetic on an array, '
+                            'outside the affine index domain; shift(s<0) reads higher orders by design and is not a graded kernel'}
 # neutral patches written against an older commit that fire there for a true reason
 NEUTRAL_SKIP = {'N7/patch3.diff': 'written before fix 02c76d5; on that tree the check reports the real _eigh_pullback defect'}
 
